@@ -11,6 +11,7 @@
 import IocProofs.Lemmas.MatchPoint
 import IocProofs.Lemmas.MatchExamples
 import IocProofs.Lemmas.M2IsCode
+import IocProofs.Lemmas.SemMisc
 namespace Ioc.C06
 open Ioc Ioc.Tag Ioc.Match
 
@@ -254,5 +255,11 @@ theorem C06_machine_inject_is_code (sc : M2.Scen) (st : M2.St) (f : M2.Frame) (r
                  (if ((M2.pts sc f.name)[f.p]).slice then ms.map obj else (ms.map obj).take 1),
                stack := M2.Lc.advance f :: rest }) := by
   exact ⟨_, _, Sem.inject_sem _ ids, M2.step_inject_is_code sc st f rest hrun hst hp hd hne ids obj hacc hids⟩
+
+/-- fas.Filter, regenerated (util/fas): `List.filter`, for every slice and predicate — what the interpreter's special form
+    `filter` (used for the self filter of `Inject`, `C06_code_Inject`, and in `filterDependencies`) takes it to be -/
+theorem C06_code_fasFilter (g : Nat → Bool) (l : List Nat) :
+    Go.run (Sem.filterPrims g) Progs.fas_Filter [Sem.encInts l, .str "f"] () = some (Sem.encInts (l.filter g), ()) :=
+  Sem.fasFilter_sem g l
 
 end Ioc.C06
